@@ -290,8 +290,11 @@ class Arm(Robot):
                             goal_position.gTM(), theta_init,
                             self.rot_tolerance, self.pos_tolerance, max_iters=max_iters)
                     i = i + 1
+                self._theta = fsr.angleMod(theta)
                 if success:
                     self._end_effector_pos_global = goal_position
+            if not success:
+                self.FK(self._theta, True)
         return theta, success
 
     def constrainedIK(self, goal_position : tm, theta_init : 'np.ndarray[float]' = None,
